@@ -156,6 +156,9 @@ def check_batch(ck, cases, inv, tab, variant, target):
             owner = c.tag
             for comp in path[:-1]:
                 owner = (probes.field_ty(idx, owner, [comp]) or "").replace("root::", "")
+                mm = re.fullmatch(r"__BindgenUnionField<(.*)>", owner)
+                if mm:
+                    owner = mm.group(1)
             got = asr.get(("off", owner, path[-1]))
             if got is None:
                 probs.append(f"no offset assertion for member {f}")
